@@ -5,13 +5,18 @@ from vf import H, C, M
 
 MODULES = [M("ohkami/src/fang/builtin/basicauth.rs", "harness/C13/basicauth.rs")]
 CONTRACTS = []
-QUICK = {1, 5, 9, 13, 17, 0, 2, 3, 33, 37, 53, 49, 73, 69}
+QUICK = set(range(20))
 HARNESSES = [H(f"c13_basicauth_contract_k{k:02d}", crate="ohkami", strength="bounded", timeout=900, unwindset={"memchr_naive": 6, "memchr_aligned": 3, "memcmp": 12, "CharSearcher": 6, "spec_utf8": 14, "try_fold": 4}, tier="quick" if k in QUICK else "thorough",
                functions=["<BasicAuth<S> as FangAction>::fore", "<[BasicAuth<S>; 2] as FangAction>::fore", "BasicAuth::matches", "basic_credential_of", "unauthorized"],
                clauses=["Ok(()) iff the Authorization value starts with `Basic `, decoding succeeded, the credential contains ':' and (text before the FIRST colon, text after it) equals a configured pair exactly",
                         "otherwise 401 with a `WWW-Authenticate: Basic` challenge"],
                bound="one harness per shape (header absent / Basic / Bearer / lowercase basic; decoded credential of length 0..=4 with symbolic ASCII bytes or a decode error; configured pair lengths (1,1),(1,2),(2,1),(0,1) with symbolic bytes; single fang or array of 2)")
-              for k in range(80)]
+              for k in range(20)]
+HARNESSES += [H(f"c13_matches_contract_k{k:02d}", crate="ohkami", strength="bounded", timeout=600, tier="quick",
+               functions=["BasicAuth::matches"],
+               clauses=["matches(u, p) == (u == self.username && p == self.password), byte for byte: a longer, shorter, swapped or prefix-sharing string is refused"],
+               bound="configured / given user and password of concrete lengths 0..=3 (12 length shapes), symbolic ASCII contents")
+              for k in range(12)]
 TRUSTED = ["ASSUMED CONTRACT: util::base64_decode_utf8 is stubbed by an arbitrary result (Err, or any ASCII string of the shape's length); the base64 crate is not verified",
            "util::unix_timestamp stubbed (clock)"]
 ASSUMPTIONS = ["credentials and configured strings restricted to ASCII of length <= 4 / <= 2"]
